@@ -316,9 +316,43 @@ def shares_objects(imp, a, b):
     return bool(dicts(a) & dicts(b))
 
 
+def scenario_clone_then_merge(ctx, imp, cls, rng, tag):
+    """Later changes to a graph do not show up in its clone (nor the other way round) - the change being a node merged in with
+    the 'combine' policy, which turns a property into a list that grows with every merge."""
+    imp.delete_all_graphs()
+    ids = {k: f'{k}-{ctx.shard}-{tag}' for k in ('A', 'B1', 'B2', 'B3', 'C')}
+    h = {k: cls(graph_id=v, importer=type(imp)()) for k, v in ids.items()}
+    prop = rng.choice(['Name', 'Site', 'p0'])
+    h['A'].add_node(node_id='x', label='NetworkNode', props={prop: 'a', 'Type': 'Server'})
+    h['A'].add_node(node_id='y', label='NetworkNode', props={prop: 'b'})
+    h['A'].add_link(node_a='x', rel='connects', node_b='y')
+    for k in ('B1', 'B2', 'B3'):
+        h[k].add_node(node_id='x', label='NetworkNode', props={prop: 'from-' + k})
+    w = {'scenario': 'clone-then-merge', 'store': 'shared', 'property': prop}
+    ctx.count('scenario:clone-then-merge')
+    try:
+        h['A'].merge_nodes(node_id='x', other_graph=h['B1'], merge_properties={prop: 'combine'})
+        h['A'].clone_graph(new_graph_id=ids['C'])
+        for changed, other, src in (('A', 'C', 'B2'), ('C', 'A', 'B3')):
+            before = canon.graph_snapshot(imp, ids[other])
+            h[changed].merge_nodes(node_id='x', other_graph=h[src], merge_properties={prop: 'combine'})
+            after = canon.graph_snapshot(imp, ids[other])
+            ctx.count('clone-independence-after-merge-checked')
+            if not canon.typed_equal(before, after):
+                ctx.violation('C04/merge-into-one-shows-in-its-clone', 'a clone and its source are independent: later changes to either do '
+                              'not show up in the other', dict(w, changed=changed, other=other, diff=canon.diff(before, after)))
+                return
+    except Exception as e:
+        ctx.violation('C04/clone-then-merge-raises', f'{type(e).__name__}: {str(e)[:200]}', w)
+    finally:
+        imp.delete_all_graphs()
+
+
 def run(ctx):
     imps = rawgraph.importers()
     rng = ctx.rng
+    for k in range(ctx.pick(3, 40)):
+        scenario_clone_then_merge(ctx, imps['shared'][0], imps['shared'][1], rng, k)
     n = ctx.pick(500, 6000)
     for i in range(n):
         store = 'shared' if i % 2 == 0 else 'disjoint'
